@@ -7,6 +7,9 @@ Implementation side, two levels:
   B. the real `make_http_servers` handler chains (inet and unix configurations, dummy supervisord) with
      every inner handler replaced by a recorder that keeps the original `match`, and the real
      `deferring_http_channel.found_terminator` over a socketpair: raw HTTP responses are read back.
+  A-seq / B-seq / C-seq: several requests on ONE connection (one shared channel object for A; HTTP/1.1 keep-alive,
+     HTTP/1.0 + Connection: keep-alive, one at a time and pipelined for B; the real inner handlers -- probe RPC namespace,
+     static file, log tails -- for C): every request is judged on its own header, whatever the connection carried before.
 Correspondence against Model/Auth.lean; base64 / UTF-8 / SHA-1 results are passed to the model as
 tables (they are parameters of the model).  Monitors: inner handler invoked <=> credentials right.
 """
@@ -27,6 +30,12 @@ ASSUMPTIONS = [
     "one configured user per server section, as make_http_servers builds it",
     "F18 (fixed, `if username is not None:`): a section with `username=` (empty value) and a password is accepted by _parse_username_and_password and is now authenticated like any other (credentials ':<password>'; theorem f18_empty_username_is_authenticated; monitor kind empty-username-disables-auth reports the defect if it returns). A section with neither option is unauthenticated by design (no_credentials_configured_is_open). An empty PASSWORD with a non-empty username is authenticated normally (credentials 'user:').",
     "a configured username containing ':' can never authenticate (the decoded cookie is split at the first colon): fails closed",
+    "connection reuse: handle_unauthorized calls request.channel.set_terminator(None), so after a 401 the channel dispatches nothing more "
+    "on that connection (theorem after_401_nothing_runs; the response says `Connection: close` for HTTP/1.1, but `Connection: Keep-Alive` "
+    "for an HTTP/1.0 keep-alive request, and the socket stays open). 'Requests with the right credentials are served' is therefore demanded of "
+    "request k only if no earlier request of the same connection was answered 401 (right_credentials_served_on_live_connection); the security "
+    "direction (no handler runs, no byte returned without the request's own valid credentials) is demanded of every request unconditionally. "
+    "Right credentials left unanswered after a 401 are counted in the evidence (Bseq:observation:...), not reported as a violation",
 ]
 RULE = ("level A cases = (stored user, stored password plain|{SHA}) x Authorization header class: absent, other scheme, "
         "case variants of the name and scheme, bad base64, non-UTF-8, missing colon, empty user / password, every prefix "
@@ -35,11 +44,17 @@ RULE = ("level A cases = (stored user, stored password plain|{SHA}) x Authorizat
         "path (every handler prefix, odd-case, percent-encoded, unmatched) x HTTP version x (inet, unix) x (auth on, "
         "empty username, no auth); level B-multi = 8 configurations of two or three server sections (different users, same "
         "user / different passwords, authenticated + open, {SHA} entries, empty username) parsed by the real parser, every "
-        "server queried with its own and with every other section's credentials and their cross combinations. Non-trivial = an Authorization line is present; distinct by (config, request)")
+        "server queried with its own and with every other section's credentials and their cross combinations; "
+        "connection reuse = sequences of 2-4 requests on one channel: every ordered pair of (right, absent, wrong user, undecodable, no colon, "
+        "other scheme, extended password) x (HTTP/1.1, HTTP/1.0 keep-alive) with the second request on every handler, every header class after "
+        "an authenticated request, random longer histories with mixed versions, delivered one at a time and pipelined, through the recorders (B-seq) "
+        "and through the real handlers with a probe RPC namespace, a static file and followed logs (C-seq). Non-trivial = an Authorization line is present; distinct by (config, request)")
 TECHNIQUE = ("Lean 4 theorems over a model whose guards, status codes, wrapper table and dispatch order are regenerated "
              "from auth_handler.py / http.py / http_server.py; differential correspondence against the real handler "
              "objects and the real channel dispatch")
-LEVEL_TEXT = ("served_iff_authorized is proved for every header list, every parameter functions (base64, UTF-8, SHA-1), "
+LEVEL_TEXT = ("every_request_decided_alone / no_request_served_on_earlier_credentials: on a connection carrying any sequence of requests the "
+              "k-th answer depends on the k-th header only (from decision_keeps_no_state, decided over the regenerated lists of persistent writes, "
+              "channel references and dynamic attribute access of the decision path); served_iff_authorized is proved for every header list, every parameter functions (base64, UTF-8, SHA-1), "
               "every path-matching function and every non-empty configured username; all_handlers_wrapped is decided "
               "over the table regenerated from make_http_servers; refusal_status and refused_has_no_effect for all inputs")
 LEVEL_NOTE = ("trusts Lean's kernel, the extractor, Python's re/base64/hashlib; the handlers behind the wrapper and "
@@ -60,6 +75,15 @@ def hs(s):
 
 def opt(s):
     return 'N' if s is None else hs(s)
+
+
+def ai_field(ai):
+    """request.auth_info as the inner handler saw it"""
+    if ai is None:
+        return '-'
+    if isinstance(ai, (list, tuple)) and len(ai) == 2 and all(isinstance(x, str) for x in ai):
+        return '%s:%s' % (hs(ai[0]), hs(ai[1]))
+    return '?%r' % (ai,)
 
 
 def sha_entry(pw):
@@ -135,9 +159,9 @@ class FakeChannel:
 
 
 class FakeRequest:
-    def __init__(self, header):
+    def __init__(self, header, channel=None):
         self.header = list(header)
-        self.channel = FakeChannel()
+        self.channel = channel if channel is not None else FakeChannel()
         self.out_headers = {}
         self.errors = []
         self.uri = '/x'
@@ -333,11 +357,13 @@ class Rec:
         self.inner, self.name, self.log = inner, name, log
     def match(self, request):
         r = bool(self.inner.match(request))
-        self.log.append(('match', self.name, r))
+        seq = next((l.split(':', 1)[1].strip() for l in request.header if l.lower().startswith('x-seq:')), None)
+        self.log.append(('match', self.name, r, seq))
         return r
     def handle_request(self, request):
         ai = getattr(request, 'auth_info', None)
-        self.log.append(('handle', self.name, ai))
+        seq = next((l.split(':', 1)[1].strip() for l in request.header if l.lower().startswith('x-seq:')), None)
+        self.log.append(('handle', self.name, ai, seq))
         request['Content-Length'] = len(MARK)
         request.push(MARK)
         request.done()
@@ -535,7 +561,7 @@ def run_level_b(ctx):
                     # -- canonical line (same format as Model/Auth.showAnswer)
                     if handled:
                         ai = handled[0][2]
-                        line = 'status=- invoked=%s auth=%s' % (handled[0][1], '-' if ai is None else '%s:%s' % (hs(ai[0]), hs(ai[1])))
+                        line = 'status=- invoked=%s auth=%s' % (handled[0][1], ai_field(ai))
                     else:
                         line = 'status=%s%s invoked=-' % (status if status is not None else '?', ' challenge' if b'WWW-Authenticate: Basic realm=' in data else '')
                         if status is None:
@@ -549,6 +575,486 @@ def run_level_b(ctx):
             close_servers(servers)
     ctx.sample({'case': cases[0][0], 'ops': [o[:160] for o in cases[0][1][:3]], 'impl': impls[0][:3]})
     ctx.correspond('auth-dispatch', cases, impls)
+
+
+# ---------------------------------------------------------------------------------------------
+# several requests on ONE connection (HTTP/1.1 keep-alive, HTTP/1.0 + Connection: keep-alive, pipelining):
+# the statement is about *every request*; whatever the connection carried before, request k is served iff
+# request k itself carries the credentials.
+SEQ_CLASSES = ['right', 'right-lowercase-name', 'absent', 'other-headers-only', 'wrong-user', 'password-extension', 'password-prefix-1',
+               'empty-password', 'digest', 'bearer-with-right-cookie', 'scheme-only', 'bad-base64-chars', 'bad-base64-single',
+               'non-utf8', 'missing-colon', 'empty-decoded', 'user-case', 'stored-string-as-password', 'two-spaces', 'prefix-name']
+SEQ_MAIN = ['right', 'absent', 'wrong-user', 'bad-base64-single', 'missing-colon', 'digest', 'password-extension']
+
+
+def level_a_seq(user, stored, seq):
+    """seq = [(wrapper index, header lines)]: the requests of one connection.  The two wrappers share the users
+    dictionary (as the five wrappers of one server do), all requests share ONE channel object.
+    -> [(canonical line, invoked?, observables)]"""
+    from supervisor.http import supervisor_auth_handler
+    import io, sys
+    users = {user: stored}
+    inners = [Inner(), Inner()]
+    wrappers = [supervisor_auth_handler(users, i) for i in inners]
+    chan = FakeChannel()
+    out = []
+    saved = sys.stderr
+    sys.stderr = io.StringIO()
+    try:
+        for wi, header in seq:
+            req = FakeRequest(header, chan)
+            before = [len(i.calls) for i in inners]
+            raised = None
+            try:
+                wrappers[wi].handle_request(req)
+            except Exception as ex:
+                raised = ex
+            new = [i.calls[b:] for i, b in zip(inners, before)]
+            calls = new[wi]
+            stray = new[1 - wi]
+            if calls:
+                ai = calls[0]
+                line = 'inner %s:%s' % (hs(ai[0]), hs(ai[1])) if isinstance(ai, list) and len(ai) == 2 else 'inner ?%r' % (ai,)
+                if len(calls) > 1 or req.errors or raised or stray:
+                    line += ' +extra'
+            elif stray:
+                line = 'other-wrapper-invoked'
+            elif raised is not None:
+                line = 'raised'
+            elif req.errors == [401]:
+                line = 'unauthorized 401'
+            elif len(req.errors) == 1:
+                line = 'error %d' % req.errors[0]
+            else:
+                line = 'nothing %r' % (req.errors,)
+            out.append((line, bool(calls or stray), {'errors': req.errors, 'headers': req.out_headers, 'raised': raised, 'calls': calls}))
+    finally:
+        sys.stderr = saved
+    return out
+
+
+def a_seq_monitors(ctx, user, stored, labelled, res, inp):
+    """labelled = [(wrapper index, label, header, right)]"""
+    for k, ((wi, label, header, right), (line, invoked, obs)) in enumerate(zip(labelled, res)):
+        ok = carries_right_credentials(header, user, stored)
+        what = 'request %d of the connection (class %s, after %s)' % (k + 1, label, [l[1] for l in labelled[:k]])
+        if invoked and not ok:
+            ctx.violation('served-without-valid-credentials', 'inner handler invoked for %s: %r' % (what, [h[:80] for h in header]), dict(inp, k=k))
+        if right is False and invoked:
+            ctx.violation('served-without-valid-credentials', '%s must be refused, inner handler invoked' % what, dict(inp, k=k))
+        if right is True and not invoked:
+            ctx.violation('valid-credentials-refused', 'right credentials not served for %s: %s' % (what, line), dict(inp, k=k))
+        if not invoked and obs['raised'] is None and obs['errors'] not in ([400], [401]):
+            ctx.violation('refusal-without-error-status', '%s refused with %r' % (what, obs['errors']), dict(inp, k=k))
+        if obs['calls'] and not (isinstance(obs['calls'][0], list) and obs['calls'][0][:1] == [user]):
+            ctx.violation('wrong-auth-info', 'auth_info %r for configured user %r (%s)' % (obs['calls'][0], user, what), dict(inp, k=k))
+
+
+def run_level_a_seq(ctx):
+    rng = ctx.rng
+    thorough = ctx.tier == 'thorough'
+    cases, impls = [], []
+    for user, pw, sha in STORES:
+        stored = stored_of(pw, sha)
+        hcs = dict((l, (h, r)) for l, h, r in header_classes(rng, user, pw, stored, False))
+        names = [n for n in hcs if not n.startswith('oversized') and not n.startswith('random')]
+        seqs = []
+        for first in ('right', 'right-lowercase-name'):            # every class after an authenticated request
+            for second in names:
+                seqs.append([first, second])
+        for first in ('absent', 'wrong-user', 'bad-base64-chars', 'missing-colon', 'digest'):   # and after each kind of refusal
+            for second in ('right', 'absent', 'wrong-user', 'missing-colon'):
+                seqs.append([first, second])
+        for _ in range(ctx.n(25, 250)):
+            seqs.append([rng.choice(SEQ_MAIN if rng.random() < 0.6 else names) for _ in range(rng.choice([3, 3, 4]))])
+        if thorough:
+            seqs.append(['right', 'oversized-junk', 'absent'])
+        for labels in seqs:
+            labelled = [(rng.randrange(2), l, hcs[l][0], hcs[l][1]) for l in labels]
+            res = level_a_seq(user, stored, [(wi, h) for wi, _, h, _ in labelled])
+            inp = {'level': 'A-seq', 'user': user, 'stored': stored, 'seq': [[wi, l, h, r] for wi, l, h, r in labelled]}
+            a_seq_monitors(ctx, user, stored, labelled, res, inp)
+            ctx.count('Aseq:len:%d' % len(labels))
+            for (wi, l, h, r), (line, invoked, _) in zip(labelled, res):
+                ctx.count('Aseq:answer:' + line.split()[0] + (':' + line.split()[1] if line.startswith('error') else ''))
+            for k in range(1, len(labels)):
+                ctx.count('Aseq:after-%s:%s' % ('right' if labelled[k - 1][3] is True else 'refusal', 'right' if labelled[k][3] is True else 'not-right'))
+            ctx.case_done(('Aseq', user, stored, tuple((wi, tuple(h)) for wi, _, h, _ in labelled)), nontrivial=True)
+            cases.append(('case authconn user=%s pass=%s' % (hs(user), hs(stored)),
+                          ['handle h=%s t=%s' % (hdr_field(h), tables_for(h)) for _, _, h, _ in labelled]))
+            impls.append([line for line, _, _ in res])
+    ctx.sample({'case': cases[2][0], 'ops': [o[:160] for o in cases[2][1]], 'impl': impls[2]})
+    ctx.correspond('auth-handler-connection', cases, impls)
+
+
+class Conn:
+    """One client connection into a REAL deferring_http_channel of a real server object.  Requests are written to the
+    socket -- one at a time or several at once (pipelined) -- and reach the channel through asyncore's own read
+    dispatch (handle_read -> found_terminator), the responses are read back from the socket."""
+    def __init__(self, hsrv):
+        from supervisor.http import deferring_http_channel
+        self.a, self.b = socket.socketpair()
+        self.ch = deferring_http_channel(hsrv, self.a, ('test', 0))
+        self.b.setblocking(False)
+        self.buf = b''
+        self.eof = False
+
+    def send(self, data):
+        """-> False if the server has hung up"""
+        try:
+            self.b.sendall(data)
+            return True
+        except OSError:
+            return False
+
+    def pump(self, rounds=6):
+        import supervisor.medusa.asyncore_25 as asyncore
+        for _ in range(rounds):
+            asyncore.poll(0.0, asyncore.socket_map)
+            try:
+                while True:
+                    d = self.b.recv(1 << 20)
+                    if not d:
+                        self.eof = True
+                        break
+                    self.buf += d
+            except (BlockingIOError, OSError):
+                pass
+
+    def take_response(self):
+        """the next complete response on the connection: (status, header bytes, body) or None"""
+        m = re.match(rb'HTTP/1\.[01] (\d+)[^\r\n]*\r\n', self.buf)
+        end = self.buf.find(b'\r\n\r\n')
+        if not m or end < 0:
+            return None
+        head = self.buf[:end]
+        cl = re.search(rb'(?im)^content-length: *(\d+)', head)
+        if cl is None:
+            body, rest = self.buf[end + 4:], b''
+        else:
+            n = int(cl.group(1))
+            if len(self.buf) < end + 4 + n:
+                return None
+            body, rest = self.buf[end + 4:end + 4 + n], self.buf[end + 4 + n:]
+        self.buf = rest
+        return int(m.group(1)), head, body
+
+    def close(self):
+        for s in (self.a, self.b):
+            try:
+                s.close()
+            except OSError:
+                pass
+        try:
+            self.ch.del_channel()
+        except Exception:
+            pass
+
+
+def framed(method, path, version, header, k):
+    """version: '1.1' | '1.0ka' (HTTP/1.0 + Connection: keep-alive) | '1.0'"""
+    lines = ['%s %s HTTP/%s' % (method, path, '1.1' if version == '1.1' else '1.0'), 'X-Seq: %d' % k]
+    if version == '1.0ka':
+        lines.append('Connection: keep-alive')
+    return ('\r\n'.join(lines + list(header)) + '\r\n\r\n').encode('utf-8')
+
+
+def connection_exchange(hsrv, log, reqs, pipelined):
+    """reqs = [(method, path, version, header lines)] on ONE connection.
+    -> [dict(delivered, status, head, body, handled, matched)] per request"""
+    import io, sys
+    saved = sys.stderr
+    sys.stderr = io.StringIO()
+    del log[:]
+    conn = Conn(hsrv)
+    res = [{'delivered': False, 'status': None, 'head': b'', 'body': b'', 'handled': [], 'matched': []} for _ in reqs]
+    try:
+        if pipelined:
+            ok = conn.send(b''.join(framed(m, p, v, h, k) for k, (m, p, v, h) in enumerate(reqs)))
+            for r in res:
+                r['delivered'] = ok
+            conn.pump(8)
+            answers = []
+            while True:
+                t = conn.take_response()
+                if t is None:
+                    break
+                answers.append(t)
+            # responses come in request order; a request that ran a handler is identified by its X-Seq tag
+            for r, t in zip(res, answers):
+                r['status'], r['head'], r['body'] = t
+        else:
+            for k, (m, p, v, h) in enumerate(reqs):
+                if conn.eof or not conn.send(framed(m, p, v, h, k)):
+                    break
+                res[k]['delivered'] = True
+                conn.pump()
+                t = conn.take_response()
+                if t is not None:
+                    res[k]['status'], res[k]['head'], res[k]['body'] = t
+        for e in log:
+            if e[3] is not None and e[3].isdigit() and int(e[3]) < len(res):
+                if e[0] == 'handle':
+                    res[int(e[3])]['handled'].append(e)
+                elif e[2]:
+                    res[int(e[3])]['matched'].append(e[1])
+        leftover = conn.buf
+    finally:
+        sys.stderr = saved
+        conn.close()
+    return res, leftover
+
+
+SEQ_PATHS = [('POST', '/RPC2'), ('GET', '/logtail/proc'), ('GET', '/mainlogtail'), ('GET', '/index.html'), ('GET', '/stylesheets/supervisor.css'),
+             ('GET', '/'), ('GET', '/nothing/here')]
+# counted, reported to the integrator, not a violation of the (security) statement: see ASSUMPTIONS
+OBSERVE_UNANSWERED_AFTER_401 = 'right-credentials-unanswered-after-401-on-kept-alive-connection'
+
+
+def b_seq_one(ctx, fam, hsrv, log, username, stored, labelled, version, pipelined, cases, impls, mode='auth'):
+    """labelled = [(method, path, label, header, right)]"""
+    reqs = [(m, p, version if isinstance(version, str) else version[k], h) for k, (m, p, l, h, r) in enumerate(labelled)]
+    res, leftover = connection_exchange(hsrv, log, reqs, pipelined)
+    inp = {'level': 'B-seq', 'family': fam, 'username': username, 'stored': stored, 'pipelined': pipelined,
+           'requests': [[m, p, v, l, h, r] for (m, p, v, h), (_, _, l, _, r) in zip(reqs, labelled)]}
+    ops, lines = [], []
+    refused_401 = False          # an earlier request of this connection was answered 401
+    closing = False              # an earlier response announced `Connection: close` (or the request was plain HTTP/1.0)
+    for k, ((m, p, l, h, right), (_, _, v, _), r) in enumerate(zip(labelled, reqs, res)):
+        ok = carries_right_credentials(h, username, stored)
+        handled, matched, status = r['handled'], r['matched'], r['status']
+        before = [x[2] for x in labelled[:k]]
+        what = 'request %d on the connection (%s %s HTTP/%s, class %s, after %s%s) on the %s server' % (
+            k + 1, m, p, v, l, before, ', pipelined' if pipelined else '', fam)
+        ctx.count('Bseq:pos%d:%s' % (k + 1, 'served' if handled else ('status:%s' % status)))
+        if k:
+            ctx.count('Bseq:after-%s:%s' % ('right' if labelled[k - 1][4] is True else 'refusal', 'right' if right is True else 'not-right'))
+        # ---- the statement, per request
+        if mode == 'auth':
+            if handled and not ok:
+                ctx.violation('served-without-valid-credentials', '%s reached handler %s without valid credentials (status %s)'
+                              % (what, handled[0][1], status), dict(inp, k=k))
+            if MARK in r['body'] and not ok:
+                ctx.violation('handler-bytes-returned-without-credentials', 'the handler\'s body was returned for %s' % what, dict(inp, k=k))
+            if len(handled) > 1:
+                ctx.violation('handled-twice', 'two handlers ran for %s: %r' % (what, handled), dict(inp, k=k))
+            if handled and handled[0][2] is not None and list(handled[0][2][:1]) != [username]:
+                ctx.violation('wrong-auth-info', 'auth_info %r for configured user %r (%s)' % (handled[0][2], username, what), dict(inp, k=k))
+            if right is True and matched and not handled:
+                ctx.violation('valid-credentials-refused', '%s: right credentials answered %s' % (what, status), dict(inp, k=k))
+            if right is True and r['delivered'] and not handled and not matched:
+                if refused_401 or closing:
+                    # the channel stopped reading after an earlier 401 of this connection (set_terminator(None))
+                    ctx.count('Bseq:observation:' + OBSERVE_UNANSWERED_AFTER_401 + (':announced-close' if closing else ':announced-keep-alive'))
+                    if not closing:
+                        # the 401 announced `Connection: Keep-Alive` (HTTP/1.0 keep-alive: done() overwrites the handler's
+                        # 'close'), yet the channel never reads again: a request with the right credentials is not served
+                        ctx.violation('right-credentials-unanswered-after-401:kept-alive-announced',
+                                      '%s: the earlier 401 announced keep-alive, the request with the right credentials on the same connection got no answer' % what,
+                                      dict(inp, k=k))
+                elif p != '/nothing/here':
+                    ctx.violation('valid-credentials-refused', '%s: right credentials got no answer (status %s)' % (what, status), dict(inp, k=k))
+            if not handled and matched and status is not None and status not in (400, 401, 500):
+                ctx.violation('refusal-without-error-status', '%s refused with status %s' % (what, status), dict(inp, k=k))
+            if not handled and status == 401 and b'WWW-Authenticate: Basic realm=' not in r['head']:
+                ctx.violation('no-basic-challenge', '%s: 401 without a Basic challenge' % what, dict(inp, k=k))
+        if not r['delivered']:
+            break
+        # ---- canonical line
+        if handled:
+            ai = handled[0][2]
+            line = 'status=- invoked=%s auth=%s' % (handled[0][1], ai_field(ai))
+        elif status is None:
+            line = 'noanswer'
+        else:
+            line = 'status=%s%s invoked=-' % (status, ' challenge' if b'WWW-Authenticate: Basic realm=' in r['head'] else '')
+        # the model is told which handler matches; a request the channel never dispatched has no match record: the
+        # handler that *would* match is the one its path matched on a live connection
+        m_field = ','.join(matched[:1]) or WOULD_MATCH.get(p, '-')
+        ops.append('serve m=%s h=%s t=%s' % (m_field, hdr_field(h), tables_for(h)))
+        lines.append(line)
+        if status == 401:
+            refused_401 = True
+        if re.search(rb'(?im)^connection: *close', r['head']) or v == '1.0':
+            closing = True
+        if v == '1.0' or (status is not None and re.search(rb'(?im)^connection: *close', r['head']) and status != 401):
+            break      # the server closes after this response: nothing more can be sent on the connection
+    ctx.case_done(('Bseq', fam, username, stored, pipelined, tuple((m, p, v, tuple(h)) for m, p, v, h in reqs)), nontrivial=True)
+    cases.append(('case authconn user=%s pass=%s' % (opt(username), opt(stored)), ops))
+    impls.append(lines)
+
+
+WOULD_MATCH = {'/RPC2': 'xmlrpchandler', '/logtail/proc': 'tailhandler', '/mainlogtail': 'maintailhandler', '/index.html': 'uihandler',
+               '/': 'uihandler', '/stylesheets/supervisor.css': 'defaulthandler', '/nothing/here': 'defaulthandler'}
+
+
+def run_level_b_seq(ctx):
+    rng = ctx.rng
+    thorough = ctx.tier == 'thorough'
+    configs = [('user', 'secret', False), ('Admin User', 'Sec ret=;#x', True), ('üser', 'p:w', False), ('u', '', False), ('', 'secret', False)]
+    cases, impls = [], []
+    for ci, (username, pw, sha) in enumerate(configs):
+        stored = stored_of(pw, sha)
+        servers = build_servers(ctx, username, stored)
+        try:
+            for fam, hsrv, log, wrapped in servers:
+                hcs = dict((l, (h, r)) for l, h, r in header_classes(rng, username, pw, stored, False))
+                def lab(label, path=None):
+                    m, p = path or rng.choice(SEQ_PATHS[:5])
+                    return (m, p, label, hcs[label][0], hcs[label][1])
+                seqs = []
+                # regression corpus: seeded change C17-6 (credentials remembered on the channel) -- its two demo histories
+                seqs.append(([lab('right', ('POST', '/RPC2')), lab('absent', ('POST', '/RPC2'))], '1.1', False))
+                seqs.append(([lab('right', ('POST', '/RPC2')), lab('wrong-user', ('GET', '/stylesheets/supervisor.css'))], '1.1', False))
+                # small scope, exhaustive: every ordered pair of main classes x version, the second request on every handler
+                full = (ci == 0) or thorough
+                for v in ('1.1', '1.0ka'):
+                    for first in SEQ_MAIN:
+                        for second in SEQ_MAIN:
+                            paths = SEQ_PATHS[:5] if (first == 'right' and full) else [rng.choice(SEQ_PATHS[:5])]
+                            for path in paths:
+                                if full or first == 'right' or rng.random() < 0.3:
+                                    seqs.append(([lab(first), lab(second, path)], v, False))
+                # after an authenticated request: every other class
+                for second in SEQ_CLASSES:
+                    if second in hcs and (full or rng.random() < 0.4):
+                        seqs.append(([lab('right'), lab(second)], rng.choice(['1.1', '1.0ka']), rng.random() < 0.3))
+                # longer histories, mixed versions, pipelined delivery
+                for _ in range(ctx.n(12, 120)):
+                    n = rng.choice([3, 3, 4])
+                    labels = ['right'] * rng.choice([1, 1, 2]) + [rng.choice(SEQ_MAIN if rng.random() < 0.7 else [c for c in SEQ_CLASSES if c in hcs])
+                                                                   for _ in range(n)]
+                    labels = labels[:n] if rng.random() < 0.8 else [rng.choice(SEQ_MAIN) for _ in range(n)]
+                    version = rng.choice(['1.1', '1.0ka', [rng.choice(['1.1', '1.0ka']) for _ in range(n)]])
+                    seqs.append(([lab(l, rng.choice(SEQ_PATHS)) for l in labels], version, rng.random() < 0.5))
+                # plain HTTP/1.0 closes after the first response: the second request goes nowhere
+                seqs.append(([lab('right'), lab('absent')], ['1.0', '1.1'], False))
+                for labelled, version, pipelined in seqs:
+                    if any('\n' in l or '\r' in l for x in labelled for l in x[3]):
+                        continue
+                    ctx.count('Bseq:%s:%s' % ('pipelined' if pipelined else 'one-at-a-time', version if isinstance(version, str) else 'mixed'))
+                    ctx.count('Bseq:len:%d' % len(labelled))
+                    b_seq_one(ctx, fam, hsrv, log, username, stored, labelled, version, pipelined, cases, impls)
+        finally:
+            close_servers(servers)
+    ctx.sample({'case': cases[0][0], 'ops': [o[:160] for o in cases[0][1]], 'impl': impls[0]})
+    ctx.correspond('auth-dispatch-connection', cases, impls)
+
+
+# ---------------------------------------------------------------------------------------------
+# level C: the REAL handlers behind the wrappers (no recorders), several requests on one connection.
+# Observed: the probe RPC namespace's call log, the bytes of the static file / the followed log in the response.
+RPC_BODY = (b"<?xml version='1.0'?><methodCall><methodName>probe.ping</methodName><params></params></methodCall>")
+LOG_SECRET = b'LOG-LINE-ONLY-FOR-AUTHENTICATED-READERS\n'
+
+
+class _Probe(object):
+    calls = []
+    def ping(self):
+        _Probe.calls.append('ping')
+        return 'pong'
+
+
+def _probe_factory(supervisord, **config):
+    return _Probe()
+
+
+def build_real_server(ctx, username, stored):
+    from supervisor.tests.base import DummyOptions, DummyPConfig, PopulatedDummySupervisor
+    from supervisor.http import make_http_servers
+    options = DummyOptions()
+    n = len(os.listdir(ctx.scratch))
+    sock = os.path.join(ctx.scratch, 'real-%d.sock' % n)
+    logpath = os.path.join(ctx.scratch, 'real-%d.log' % n)
+    with open(logpath, 'wb') as f:
+        f.write(LOG_SECRET)
+    options.server_configs = [c for c in parse_server_configs(ctx, username, stored, sock) if c['family'] == socket.AF_UNIX]
+    options.rpcinterface_factories = [('probe', _probe_factory, {})]
+    options.logfile = logpath
+    sup = PopulatedDummySupervisor(options, 'grp', DummyPConfig(options, 'proc', '/bin/true', stdout_logfile=logpath))
+    servers = make_http_servers(options, sup)
+    return servers[0][1]
+
+
+def real_request(kind, version, header, k):
+    method, path, body = {'rpc': ('POST', '/RPC2', RPC_BODY), 'css': ('GET', '/stylesheets/supervisor.css', b''),
+                          'tail': ('GET', '/logtail/grp:proc', b''), 'main': ('GET', '/mainlogtail', b'')}[kind]
+    lines = ['%s %s HTTP/%s' % (method, path, '1.1' if version == '1.1' else '1.0'), 'Host: localhost', 'X-Seq: %d' % k]
+    if version == '1.0ka':
+        lines.append('Connection: keep-alive')
+    if body:
+        lines += ['Content-Type: text/xml', 'Content-Length: %d' % len(body)]
+    return ('\r\n'.join(lines + list(header)) + '\r\n\r\n').encode('utf-8') + body
+
+
+def c_seq_one(ctx, hsrv, css, username, stored, seq, version):
+    """seq = [(kind, label, header, right)]; every request but the last carries the right credentials"""
+    import io, sys
+    saved = sys.stderr
+    sys.stderr = io.StringIO()
+    conn = Conn(hsrv)
+    inp = {'level': 'C-seq', 'username': username, 'stored': stored, 'version': version, 'seq': [[kd, l, h, r] for kd, l, h, r in seq]}
+    try:
+        for k, (kind, label, header, right) in enumerate(seq):
+            del _Probe.calls[:]
+            if conn.eof or not conn.send(real_request(kind, version, header, k)):
+                break
+            conn.pump(8)
+            t = conn.take_response()
+            status, head, body = t if t is not None else (None, b'', conn.buf)
+            ok = carries_right_credentials(header, username, stored)
+            ran = list(_Probe.calls)
+            leaked = [w for w, b in (('the static file', css), ('the log', LOG_SECRET.strip())) if b in body or b in conn.buf]
+            what = 'request %d on the connection (%s HTTP/%s, class %s, after %s)' % (k + 1, kind, version, label, [x[1] for x in seq[:k]])
+            ctx.count('Cseq:%s:%s:%s' % (kind, 'right' if ok else 'not-right', status))
+            if not ok:
+                if ran:
+                    ctx.violation('rpc-method-ran-without-credentials', '%s: RPC method ran: %r (status %s)' % (what, ran, status), dict(inp, k=k))
+                if leaked:
+                    ctx.violation('handler-bytes-returned-without-credentials', '%s: bytes of %s were returned (status %s)' % (what, ' and '.join(leaked), status), dict(inp, k=k))
+                if status == 200:
+                    ctx.violation('served-without-valid-credentials', '%s answered 200' % what, dict(inp, k=k))
+            elif right is True:
+                served = (kind == 'rpc' and ran == ['ping'] and status == 200) or (kind == 'css' and css in body and status == 200) or \
+                         (kind in ('tail', 'main') and status == 200 and LOG_SECRET.strip() in body)
+                if not served:
+                    ctx.violation('valid-credentials-refused', '%s: right credentials, status %s, rpc calls %r, %d body bytes' % (what, status, ran, len(body)), dict(inp, k=k))
+            if kind in ('tail', 'main') and status == 200:
+                break            # the stream stays open: nothing else can be asked on this connection
+    finally:
+        sys.stderr = saved
+        conn.close()
+    ctx.case_done(('Cseq', username, stored, version, tuple((kd, tuple(h)) for kd, _, h, _ in seq)), nontrivial=True)
+
+
+def run_level_c_seq(ctx):
+    import supervisor.medusa.asyncore_25 as asyncore
+    import supervisor
+    rng = ctx.rng
+    css = open(os.path.join(os.path.dirname(supervisor.__file__), 'ui', 'stylesheets', 'supervisor.css'), 'rb').read()
+    for username, pw, sha in [('user', 'secret', False), ('admin', 's3:cret', True)]:
+        stored = stored_of(pw, sha)
+        hsrv = build_real_server(ctx, username, stored)
+        try:
+            hcs = dict((l, (h, r)) for l, h, r in header_classes(rng, username, pw, stored, False))
+            lasts = ['right', 'absent', 'wrong-user', 'password-extension', 'bad-base64-single', 'missing-colon', 'digest', 'empty-password']
+            seqs = []
+            for version in ('1.1', '1.0ka'):
+                for last in lasts:
+                    for firsts, kind in ((['rpc'], 'rpc'), (['rpc'], 'css'), (['css'], 'rpc'), (['css', 'rpc'], 'tail'), (['rpc', 'css'], 'main'),
+                                         ([], 'rpc'), ([], 'tail')):
+                        if kind in ('tail', 'main') and version != '1.1':
+                            continue      # an HTTP/1.0 tail is not chunked and sits in the 64 KiB globbing buffer: nothing to observe
+                        if ctx.tier == 'thorough' or last in ('right', 'absent', 'wrong-user') or rng.random() < 0.35:
+                            seqs.append((version, [(f, 'right') for f in firsts] + [(kind, last)]))
+            for version, items in seqs:
+                c_seq_one(ctx, hsrv, css, username, stored, [(kd, l, hcs[l][0], hcs[l][1]) for kd, l in items], version)
+        finally:
+            try:
+                hsrv.close()
+            except Exception:
+                pass
+            asyncore.socket_map.clear()
 
 
 MULTI = [
@@ -680,7 +1186,7 @@ def run_level_b_multi(ctx):
                                               % (section, status), inp)
                         if handled:
                             ai = handled[0][2]
-                            line = 'status=- invoked=%s auth=%s' % (handled[0][1], '-' if ai is None else '%s:%s' % (hs(ai[0]), hs(ai[1])))
+                            line = 'status=- invoked=%s auth=%s' % (handled[0][1], ai_field(ai))
                         else:
                             if status is None:
                                 continue
@@ -713,7 +1219,10 @@ def run_config_parse(ctx):
 
 def run(ctx):
     run_level_a(ctx)
+    run_level_a_seq(ctx)
     run_level_b(ctx)
+    run_level_b_seq(ctx)
+    run_level_c_seq(ctx)
     run_level_b_multi(ctx)
     run_config_parse(ctx)
 
@@ -726,5 +1235,27 @@ def replay(ctx, data):
             ctx.violation('served-without-valid-credentials', 'replayed: ' + line, inp)
         if not obs['inner'] and data.get('violation_kind') == 'valid-credentials-refused':
             ctx.violation('valid-credentials-refused', 'replayed: ' + line, inp)
+    elif inp.get('level') == 'A-seq':
+        labelled = [(wi, l, h, r) for wi, l, h, r in inp['seq']]
+        res = level_a_seq(inp['user'], inp['stored'], [(wi, h) for wi, _, h, _ in labelled])
+        a_seq_monitors(ctx, inp['user'], inp['stored'], labelled, res, dict((k, v) for k, v in inp.items() if k != 'k'))
+    elif inp.get('level') == 'C-seq':
+        import supervisor
+        import supervisor.medusa.asyncore_25 as asyncore
+        css = open(os.path.join(os.path.dirname(supervisor.__file__), 'ui', 'stylesheets', 'supervisor.css'), 'rb').read()
+        hsrv = build_real_server(ctx, inp['username'], inp['stored'])
+        try:
+            c_seq_one(ctx, hsrv, css, inp['username'], inp['stored'], [tuple(x) for x in inp['seq']], inp['version'])
+        finally:
+            hsrv.close(); asyncore.socket_map.clear()
+    elif inp.get('level') == 'B-seq':
+        servers = build_servers(ctx, inp['username'], inp['stored'])
+        try:
+            for fam, hsrv, log, wrapped in servers:
+                if fam == inp['family']:
+                    b_seq_one(ctx, fam, hsrv, log, inp['username'], inp['stored'], [(m, p, l, h, r) for m, p, v, l, h, r in inp['requests']],
+                              [r[2] for r in inp['requests']], inp['pipelined'], [], [])
+        finally:
+            close_servers(servers)
     else:
         run_level_b(ctx)
